@@ -18,10 +18,6 @@ def main():
         print(f'no check registered for {a.prop}')
         sys.exit(3)
     spec = dict(CHECKS[a.prop])
-    if isinstance(spec.get('lemmas'), str):
-        import importlib
-        modname, fn = spec['lemmas'].rsplit('.', 1)
-        spec['lemmas'] = getattr(importlib.import_module(modname), fn)
     sys.exit(symrun.check_property(a.prop, a.tier, spec))
 
 
